@@ -40,8 +40,10 @@ type Pipe struct {
 	// OnWrite is called after a Write was queued (token held).
 	OnWrite func(b []byte)
 	// Delay, if > 0, makes data readable only that much virtual time after it was written.
-	Delay time.Duration
-	ready []time.Duration
+	Delay  time.Duration
+	ready  []time.Duration
+	gates  []func() bool
+	OnRead func(whole bool)
 
 	mu   sync.Mutex
 	cond *sync.Cond
@@ -114,6 +116,9 @@ func (p *Pipe) Read(b []byte) (int, error) {
 			}
 		} else {
 			p.q[0] = head[m:]
+		}
+		if p.OnRead != nil {
+			p.OnRead(m == len(head))
 		}
 	}
 	p.queued -= n
@@ -265,4 +270,80 @@ func WaitUntilOrTimeout(kind string, d time.Duration, cond func() bool) bool {
 	Point(kind, 0, func() bool { return expired || cond() })
 	tm.Stop()
 	return cond()
+}
+
+// InjectGated queues a chunk that becomes readable only once gate holds (and the chunks before it
+// were read). Used by drivers to script causally ordered arrivals without feeder threads.
+func (p *Pipe) InjectGated(b []byte, gate func() bool) {
+	p.Inject(b)
+	for len(p.gates) < len(p.q)-1 {
+		p.gates = append(p.gates, nil)
+	}
+	p.gates = append(p.gates, gate)
+	if p.Gate == nil {
+		p.Gate = func() bool {
+			// gates are aligned with the tail of q: chunks consumed from the front drop their gate
+			if len(p.gates) == 0 {
+				return true
+			}
+			g := p.gates[0]
+			return g == nil || g()
+		}
+		p.OnRead = func(whole bool) {
+			if whole && len(p.gates) > 0 {
+				p.gates = p.gates[1:]
+			} else if !whole && len(p.gates) > 0 {
+				p.gates[0] = nil // the rest of a partially read chunk has already arrived
+			}
+		}
+	}
+}
+
+// Sink is a write-only stream end that records what it receives.
+type Sink struct {
+	Name     string
+	Written  []byte
+	Log      []Stamp
+	IsClosed bool
+	WriteErr func(i int, b []byte) error
+	OnWrite  func(b []byte)
+}
+
+func NewSink(name string) *Sink { return &Sink{Name: name} }
+
+func (w *Sink) Write(b []byte) (int, error) {
+	if G != nil && !G.aborting {
+		Yield("sink.write:" + w.Name)
+	}
+	if w.WriteErr != nil {
+		if err := w.WriteErr(len(w.Log), b); err != nil {
+			return 0, err
+		}
+	}
+	w.Log = append(w.Log, Stamp{len(w.Written), len(b), Elapsed()})
+	w.Written = append(w.Written, b...)
+	if w.OnWrite != nil {
+		w.OnWrite(b)
+	}
+	return len(b), nil
+}
+
+func (w *Sink) Close() error { w.IsClosed = true; return nil }
+
+func (w *Sink) Has(sub string) func() bool {
+	bs := []byte(sub)
+	return func() bool { return bytesContains(w.Written, bs) }
+}
+
+func bytesContains(b, sub []byte) bool {
+	n := len(sub)
+	if n == 0 {
+		return true
+	}
+	for i := 0; i+n <= len(b); i++ {
+		if b[i] == sub[0] && string(b[i:i+n]) == string(sub) {
+			return true
+		}
+	}
+	return false
 }
